@@ -38,6 +38,8 @@ func init() {
 			"Appended cases (owned.go), the caller owns the input and goes on using it: 2-4 records of any stream structure are decoded one after the other from ONE input (bytes.Buffer over the caller's slice, bytes.Buffer used as a queue that is written to between decodes - with/without Reset, with/without pre-grown storage -, bytes.Reader, bufio.Reader with a 16..4096-byte buffer, reader with short reads), " +
 			"all decoded values are kept and judged at return, after the last record and after the caller filled / inverted / rewrote its slice, refilled its queue or drained the bufio buffer; the same sequence again on fresh storage with the caller appending 1-24 bytes to every byte slice of each decoded value (result dropped) and overwriting a third of the values in place before decoding the next record, then decoding its untouched slice again; " +
 			"SP800155Event3.UnmarshalFromBytes / SevEsResetBlockFromBytes / TDXMetadataFromBytes read 2-3 records one after the other from one scratch slice of the caller (same two probes). " +
+			"Appended cases (again.go), the caller keeps ONE value object and hands it to the encoder call after call: a pool of 1-3 save areas and 4-8 PutVmsa calls, each on the object of the call before (7 in 10) or another one, after no edit / an in-range edit in place (registers through the held pointers, replaced or cleared, integers, reserved ranges absent <-> documented zeros) / an edit that takes it out of range (selector, attrib >= 2^16, cpl >= 2^8, one non-zero reserved byte, reserved_8/9) / the repair of one, into a fresh buffer or the (refilled or untouched) buffer of an earlier call; " +
+			"the same walk (1-2 objects, 3-6 calls) for the ovmf/abi encoders with pointer receivers or arguments (FwGUIDEntry, SevMetadataSection, SevMetadata, MetadataOffset, TDXMetadataDescriptor, TDXMetadataSection, TDXMetadata through its header and section pointers with sections appended and dropped, the SEV-ES reset block with its GUID overwritten in the same backing array; out of range: Size >= 2^16, GUID not 16 bytes, SectionCount != len(Sections)): every call must encode the value the object holds at that call, or refuse it when it is out of range then. " +
 			"Oracle (one-directional): encoder output equals the reference encoding and touches exactly the ABI size; decode(encode(v)) = v with exactly the encoding consumed; in-range values and documented-size zero reserved fields are accepted; " +
 			"out-of-range fields and non-zero reserved fields are refused; an accepted byte string re-encodes to itself (SP800-155 trailing zero padding excepted). Refusals of malformed input are counted, never judged; a panic on malformed input counts as a refusal. " +
 			"non-trivial = distinct (structure, probe, outcome) cells",
@@ -260,7 +262,8 @@ func run(c *core.Ctx) {
 		c.End(i)
 	}
 	next := runAudit(c, st, n) // the audit's dimensions: cases n, n+1, ... (audit.go)
-	runOwned(c, st, next)      // the caller owns the input and goes on using it: cases behind the audit's (owned.go)
+	next = runOwned(c, st, next) // the caller owns the input and goes on using it: cases behind the audit's (owned.go)
+	runAgain(c, st, next)        // the caller keeps one value object and encodes it call after call: cases behind those (again.go)
 	for _, f := range floorNames {
 		c.Floor(f, floors[f] > 0)
 	}
